@@ -65,6 +65,39 @@ func rulePathKind(p *Prog, r *Res, rule string, pkgs []string) {
 		}
 		return v
 	}
+	// a field used through a local copy (`prev := b.snapshotFilename; … Join(dir, prev)`) is used as that field
+	fieldOfExprIn := func(f *Fn, info *types.Info, e ast.Expr) *types.Var {
+		if v := fieldOfExpr(info, e); v != nil {
+			return v
+		}
+		id, ok := ast.Unparen(e).(*ast.Ident)
+		if !ok {
+			return nil
+		}
+		o := info.Uses[id]
+		if o == nil {
+			return nil
+		}
+		var defs []ast.Expr
+		ast.Inspect(f.Body(), func(n ast.Node) bool {
+			if as, ok := n.(*ast.AssignStmt); ok {
+				for i, l := range as.Lhs {
+					if identObj(info, l) == o {
+						if len(as.Lhs) == len(as.Rhs) {
+							defs = append(defs, as.Rhs[i])
+						} else {
+							defs = append(defs, nil)
+						}
+					}
+				}
+			}
+			return true
+		})
+		if len(defs) == 1 && defs[0] != nil {
+			return fieldOfExpr(info, defs[0])
+		}
+		return nil
+	}
 	fullSinks := map[string]int{"os.Open": 0, "os.OpenFile": 0, "os.Create": 0, "os.Remove": 0, "os.Stat": 0, "os.Lstat": 0, "os.ReadFile": 0, "os.WriteFile": 0, "os.Rename": 0}
 	for _, f := range p.FnList {
 		if f.Body() == nil || f.Lit != nil {
@@ -86,17 +119,17 @@ func rulePathKind(p *Prog, r *Res, rule string, pkgs []string) {
 					if i == 0 {
 						continue
 					}
-					if fld := fieldOfExpr(info, a); fld != nil {
+					if fld := fieldOfExprIn(f, info, a); fld != nil {
 						note(fld, kBase, p.Pos(c))
 					}
 				}
 			default:
 				if idx, ok := fullSinks[full]; ok && idx < len(c.Args) {
-					if fld := fieldOfExpr(info, c.Args[idx]); fld != nil {
+					if fld := fieldOfExprIn(f, info, c.Args[idx]); fld != nil {
 						note(fld, kFull, p.Pos(c))
 					}
 					if full == "os.Rename" && len(c.Args) > 1 {
-						if fld := fieldOfExpr(info, c.Args[1]); fld != nil {
+						if fld := fieldOfExprIn(f, info, c.Args[1]); fld != nil {
 							note(fld, kFull, p.Pos(c))
 						}
 					}
